@@ -105,6 +105,8 @@ pub enum Ev
     /// Bulk auto-despawn observation at a collection: entities whose signals were all dropped before it (`released`, of which
     /// `survivors` are still alive) and entities with a clone still held (`held`, of which `lost` are gone).
     Bulk { uid: u32, released: u32, survivors: u32, held: u32, lost: u32 },
+    /// does the scratch system's entity exist after the first / the second collection of the `RcScratch` op
+    RcScratch { uid: u32, mid: bool, after: bool },
     /// A `single*` accessor ran: the entity it reported and the value it saw before writing.
     Single { uid: u32, e: u64, old: Option<u8> },
     /// syscall family: callee body, and value returned to the caller.
